@@ -50,6 +50,10 @@ DenText(s, v) ==
       [] s = "a-b"     -> v.a - v.b
       [] s = "-a"      -> 0 - v.a
       [] s = "(x-y)"   -> v.x - v.y
+      [] s = "x*-y"    -> 0 - v.x * v.y
+      [] s = "x/-y"    -> 0 - (v.x \div v.y)
+      [] s = "x--y"    -> v.x + v.y
+      [] s = "a-y"     -> v.a - v.y
       [] s = "x*2"     -> v.x * 2
       [] s = "2*x"     -> 2 * v.x
       [] s = "6/y"     -> 6 \div v.y
